@@ -86,6 +86,35 @@ def run(ctx):
                       arr(hid_str(s) for s in strs), arr(map(str, ints)), arr('true' if x else 'false' for x in bools),
                       arr(map(str, ints)), arr('true' if x else 'false' for x in bools)))
             jobs.append(('arr%d_w%d' % (n, w), src, [], w, 200, False, 400000))
+    # constants that are equal as numbers but not as data: the same values as int[], byte[], bool[] (and a string with the same
+    # bytes), global and local, in every order of first use, plus true duplicates - an emitter that shares storage between
+    # "equal" constants must not confuse layouts
+    import itertools
+    decl = {'int': ('const int[] %s = %s;', lambda v: str(v)), 'byte': ('const byte[] %s = %s;', lambda v: str(v)),
+            'bool': ('const bool[] %s = %s;', lambda v: 'true' if v else 'false')}
+    dumpers = ('empty dump(const int[] a) { for (int i = 0; i < a.length; i += 1) { write(a[i]); write(\',\'); } write(\';\'); }\n'
+               'empty dump(const byte[] a) { for (int i = 0; i < a.length; i += 1) { write(a[i] is int); write(\'.\'); } write(\';\'); }\n'
+               'empty dump(const bool[] a) { for (int i = 0; i < a.length; i += 1) { write(a[i]); } write(\';\'); }\n')
+    k = 0
+    for n in ((3, 9, 10) if ctx.quick else (1, 2, 3, 7, 8, 9, 10, 16, 17)):
+        vals = [ctx.rng.randrange(2) for _ in range(n)]
+        lit = {t: '[' + ', '.join(decl[t][1](v) for v in vals) + ']' for t in decl}
+        for order in itertools.permutations(['int', 'byte', 'bool']):
+            for place in ('global', 'local', 'mixed'):
+                gl, lo = [], []
+                for i, t in enumerate(order):
+                    (gl if place == 'global' or (place == 'mixed' and i % 2 == 0) else lo).append(decl[t][0] % ('k' + t, lit[t]))
+                src = ('\n'.join(gl) + '\n' + dumpers + 'empty @is_you() { ' + ' '.join(lo) + ' ' +
+                       ' '.join('dump(k%s);' % t for t in order) + ' ' + ' '.join('dump(k%s);' % t for t in reversed(order)) +
+                       ' const int[] again = %s; dump(again); write(kint.length + kbyte.length + kbool.length); }' % lit['int'])
+                for w in ((2,) if ctx.quick else (2, 4)):
+                    jobs.append(('eq%d_w%d' % (k, w), src, [], w, 200, False, 400000)); k += 1
+    bs = [ctx.rng.choice([0x41, 0x42, 0x5c, 0x00, 0x01]) for _ in range(6)]
+    for order in itertools.permutations(range(3)):
+        parts = ['const byte[] kb = [%s];' % ', '.join(map(str, bs)), 'const string ks = %s;' % hid_str(bs), 'const int[] ki = [%s];' % ', '.join(map(str, bs))]
+        uses = ['write(kb); write(kb.length);', 'write(ks); write(ks.length);', 'for (int i = 0; i < ki.length; i += 1) { write(ki[i]); write(\',\'); }']
+        src = '\n'.join(parts[i] for i in order) + '\nempty @is_you() { ' + ' '.join(uses[i] for i in order) + ' ' + ' '.join(uses[i] for i in reversed(order)) + ' }'
+        jobs.append(('eqs%s' % ''.join(map(str, order)), src, [], 2, 200, False, 400000))
     tally, bad, res = suites.differential(ctx, jobs, None, label='constant-data', must_compile=True)
     # independent oracle: the printed prefix must be the literal bytes
     wrong = 0
